@@ -265,18 +265,9 @@ def _loop_temps_written_out(fn):
     return new
 
 
-def run(chk, repo):
-    fmod = repo.mod(LF)
-    WF = lambda q: "%s:%s" % (fmod.relpath, q)
-    x = RF.sym("x")
-    STRATEGIES.clear()
-    del DOMAIN[:]
-    for dn_ in ("lowpass", "highpass", "resonator"):
-        for st_ in repo.strategies_of(LF, dn_):
-            if st_.kind == "def":
-                for nm_ in st_.names:
-                    STRATEGIES[(dn_, nm_)] = st_.node
-
+def design_hub_budgets(chk, repo):
+    """R4.1 / R4.2 over the design strategies that take possibly Stream-valued parameters (shared with C02: a Stream
+    used twice is also read twice per output sample)"""
     # ------------------------------------------------------------ hub budgets
     chk.rule("R4.1", "every thub(x, n) is used at most n times on every path (more: IndexError 'no more copies' as soon "
                      "as the parameter is a Stream); fewer is a note")
@@ -328,6 +319,22 @@ def run(chk, repo):
                            why="budget below the single use", node=ih)
     chk.floor("R4.1", nthub, 24, "thub call sites in design strategies")
     chk.floor("R4.1", nh, 60, "budget obligations")
+
+
+
+def run(chk, repo):
+    fmod = repo.mod(LF)
+    WF = lambda q: "%s:%s" % (fmod.relpath, q)
+    x = RF.sym("x")
+    STRATEGIES.clear()
+    del DOMAIN[:]
+    for dn_ in ("lowpass", "highpass", "resonator"):
+        for st_ in repo.strategies_of(LF, dn_):
+            if st_.kind == "def":
+                for nm_ in st_.names:
+                    STRATEGIES[(dn_, nm_)] = st_.node
+
+    design_hub_budgets(chk, repo)
 
     # -------------------------------------------------------------- DC / Nyquist
     chk.rule("C13.gain", "lowpass strategies: H(z=1) == 1; highpass strategies: H(z=-1) == 1, identically in the pole "
